@@ -72,6 +72,9 @@ def asEv (j : Json) : R Ev := do
     pure (.run sh (getBoolD j "space" false) (getBoolD j "crop" false))
   | _ => throw s!"unknown event {k}"
 
+def jsamples (d : List (Nat × List (List Int))) : Json :=
+  jarr (d.map fun kv => jarr [jnat kv.1, jarr (kv.2.map intList)])
+
 /-- run a history, reporting the state after every event and what the event returned -/
 def history (cfg : Cfg) : St → List Ev → List Json
   | _, [] => []
@@ -83,7 +86,8 @@ def history (cfg : Cfg) : St → List Ev → List Json
       | .run sh sp cr =>
         let r := s.run cfg sh sp cr
         (r.1, Json.mkObj [("executed", jcirc r.2.executed), ("backendModes", jint r.2.backendModes),
-          ("stateModes", jopt (fun p : Nat × Nat => natList [p.1, p.2]) r.2.stateModes)])
+          ("stateModes", jopt (fun p : Nat × Nat => natList [p.1, p.2]) r.2.stateModes),
+          ("samples", jopt jsamples r.2.samples)])
       | e => (s.step cfg e, Json.str "ok")
     Json.mkObj [("out", out), ("st", jst s')] :: history cfg s' es
 
@@ -116,8 +120,18 @@ def handler (op : String) (j : Json) : Option (R Json) :=
     pure <| natList (getModeOrder (← getNat j "num") (← getNatList j "modes") (← getNatList j "N"))
   | "tdm.reshape" => some do
     let samples ← asSamples (← j.getObjVal? "samples")
-    let out := reshapeSamples samples (← getNatList j "modes") (← getNatList j "N") (← getNat j "T")
-    pure <| jarr (out.map fun kv => jarr [jnat kv.1, jarr (kv.2.map intList)])
+    let modes ← getNatList j "modes"
+    let N ← getNatList j "N"
+    let T ← getNat j "T"
+    let out := match getNatList j "order" with
+      | .ok order => reshapeWith samples modes N.length T order
+      | .error _ => reshapeSamples samples modes N T
+    pure <| jsamples out
+  | "tdm.measOrder" => some do
+    let rolled ← getCmds j "rolled"
+    let circ ← getCmds j "circ"
+    pure <| Json.mkObj [("order", natList (measOrder rolled circ)),
+      ("modes", natList (measuredModes rolled)), ("rank", natList (rankOf (measuredRegs rolled)))]
   | "tdm.crop" => some do
     let cfg ← asCfg j
     let rolled ← getCmds j "rolled"
@@ -129,6 +143,7 @@ def handler (op : String) (j : Json) : Option (R Json) :=
     let delays ← getNatList j "delays"
     pure <| Json.mkObj [("crop", jnat (padCrop alphas delays)),
       ("padded", jarr ((padded alphas delays).map intList)),
+      ("prologues", natList (prologues 0 alphas delays)),
       ("cropOfPadded", jnat (Tdm.cropValue (padded alphas delays) delays))]
   | _ => none
 
